@@ -767,7 +767,12 @@ Bucket_maxminKey(Bucket *self, PyObject *args, int min)
         if ((rc = Bucket_findRangeEnd(self, key, min, 0, &offset)) <= 0)
         {
             if (rc < 0)
+            {
+                /* e.g. a key of the wrong type:  don't leave the bucket
+                   pinned (sticky) in the cache */
+                PER_UNUSE(self);
                 return NULL;
+            }
             empty_bucket = 0;
             goto empty;
         }
